@@ -167,6 +167,9 @@ class VarInt(Type):
 
     @staticmethod
     def send(value, socket):
+        if value < 0:
+            raise ValueError("VarInt cannot encode a negative integer: %r"
+                             % (value,))
         out = bytes()
         while True:
             byte = value & 0x7F
